@@ -13,6 +13,7 @@ RULE = ("(1) all pairs and (thorough: all, quick: sampled) triples of a 78-item 
         "decoded source text; (4) generated programs under random layouts: same token sequence and same parse tree as "
         "the canonical single-space layout. distinct = distinct source texts; non-trivial = >= 2 tokens.")
 RULE += (" " + 'Pairs are also judged in 9 contexts (after a leading line, after non-ASCII comments and strings on the same and earlier lines, after a multi-line string, after tabs, before a comment that ends the text without a newline).')
+RULE += (" " + 'Generated programs are also laid out with whitespace, line breaks and comments between the three tokens (digits, dot, digits) of every float literal; the parse must equal that of the compact text.')
 
 KEYWORDS = ["let", "import", "include", "as", "func", "select", "map", "reduce", "filter", "module", "mod", "out",
             "constraint", "convert", "assert", "fail", "TRACE", "NULL", "in", "is", "not", "true", "false", "self", "env"]
